@@ -61,6 +61,8 @@ def _plain(v):
         return ('dtype', v.name, v.length, v.bitlength, v.scale, v.variable_length, v.is_signed)
     if isinstance(v, float) and v != v:
         return 'nan'
+    if isinstance(v, (bool, int, float)):
+        return (type(v).__name__, v)      # 6 and 6.0 are different results
     return v
 
 
@@ -77,6 +79,11 @@ def _ops():
     ops["pack('uint:n=v', n=8, v=3)"] = lambda: bitstring.pack('uint:n=v', n=8, v=3)
     ops["pack('ue, se', 3, -1)"] = lambda: bitstring.pack('ue, se', 3, -1)
     ops["pack('>HB', 1, 2)"] = lambda: bitstring.pack('>HB', 1, 2)
+    ops["pack(['uint:8', 'hex:4'], 7, 'f')"] = lambda: bitstring.pack(['uint:8', 'hex:4'], 7, 'f')
+    ops["pack('uint:8', 7)"] = lambda: bitstring.pack('uint:8', 7)
+    ops["pack(['uint:n', 'bool', 'int:4'], 7, True, -3, n=8)"] = lambda: bitstring.pack(['uint:n', 'bool', 'int:4'], 7, True, -3, n=8)
+    ops["Bits('0xa5c3').unpack(['uint:4', 'bits:4, hex'])"] = lambda: bitstring.Bits('0xa5c3').unpack(['uint:4', 'bits:4, hex'])
+    ops["BitStream('0xa5c3').readlist(['uint:4', 'hex:4'])"] = lambda: bitstring.BitStream('0xa5c3').readlist(['uint:4', 'hex:4'])
     ops["Bits('0xa5c3').unpack('uint:4, bits:4, hex')"] = lambda: bitstring.Bits('0xa5c3').unpack('uint:4, bits:4, hex')
     ops["Bits('0b00100').unpack('ue')"] = lambda: bitstring.Bits('0b00100').unpack('ue')
     ops["BitStream('0xa5c3').readlist('uint:a, bin:b', a=3, b=5)"] = lambda: bitstring.BitStream('0xa5c3').readlist('uint:a, bin:b', a=3, b=5)
@@ -104,7 +111,7 @@ def h_key_sufficiency(opname):
         warm = _outcome(K, call(f))
         env.clear_caches()
         cold = _outcome(K, call(f))
-        if not K.check(warm == cold, 'the result of a call depends on option values that were in force earlier (stale cache entry)', op=opname, first_options=s1, options=s2,
+        if not K.check(warm == cold, 'the result of a call differs from the same call on cold caches (it depends on earlier calls or on option values that were in force earlier)', op=opname, first_options=s1, options=s2,
                        warm=warm, cold=cold):
             return False
         # setting the options back restores the first behaviour exactly
@@ -130,7 +137,9 @@ def _value_routes():
         "Bits(float=v, length=32)": lambda v: B.Bits(float=v, length=32), "Bits(uint=v, length=8)": lambda v: B.Bits(uint=v, length=8), "Bits(bool=v)": lambda v: B.Bits(bool=v),
         "Dtype('float32').build(v)": lambda v: B.Dtype('float32').build(v), "Dtype('bfloat').build(v)": lambda v: B.Dtype('bfloat').build(v),
         "Array('float32', [v])": lambda v: B.Array('float32', [v]), "Array('float16', [v]).append": lambda v: _arr_append(B, v),
-        "BitArray.float = v": lambda v: _set_float(B, v), "Bits('float:32=' + str(v))": lambda v: B.Bits('float:32=' + str(v)), "Bits([v])": lambda v: B.Bits([v]),
+        "BitArray.float = v": lambda v: _set_float(B, v), "Dtype('uint8', scale=v).parse('0x03')": lambda v: B.Dtype('uint8', scale=v).parse('0x03'),
+        "Dtype('uint', 8, scale=v).parse('0x03')": lambda v: B.Dtype('uint', 8, scale=v).parse('0x03'), "Dtype('float16', scale=v).build(3.0)": lambda v: B.Dtype('float16', scale=v).build(3.0),
+        "Array(Dtype('uint8', scale=v), [4]).tolist()": lambda v: B.Array(B.Dtype('uint8', scale=v), [4]).tolist(), "Dtype('uint', v)": lambda v: B.Dtype('uint', v), "Bits(uint=3, length=v)": lambda v: B.Bits(uint=3, length=v), "Bits('float:32=' + str(v))": lambda v: B.Bits('float:32=' + str(v)), "Bits([v])": lambda v: B.Bits([v]),
     }
 
 
@@ -171,15 +180,16 @@ def _shrink_caches():
         for nm in names:
             f = getattr(mod, nm)
             inner = getattr(f, '__wrapped__', f)
-            nf = functools.lru_cache(2)(inner)
+            nf = functools.lru_cache(2, typed=f.cache_parameters()['typed'])(inner)
             setattr(mod, nm, nf)
             for other in (methods, bits, array_, bitstore_helpers, dtypes):
                 if nm in vars(other) and other is not mod:
                     setattr(other, nm, nf)
     for nm in ('_create', '_new_from_token'):
         inner = dtypes.Dtype.__dict__[nm].__func__
+        typed = inner.cache_parameters()['typed'] if hasattr(inner, 'cache_parameters') else env.DTYPE_CACHE_PARAMS.get(nm, {}).get('typed', False)
         inner = getattr(inner, '__wrapped__', inner)
-        setattr(dtypes.Dtype, nm, classmethod(functools.lru_cache(2)(inner)))
+        setattr(dtypes.Dtype, nm, classmethod(functools.lru_cache(2, typed=typed)(inner)))
 
 
 def h_eviction(keys, steps):
@@ -241,10 +251,11 @@ def conditions(tier):
         add(f'C09.hit-equals-miss[{nm}]', h_hit_equals_miss(nm), 'all option settings; second call vs first; mutation of the first result', op=nm)
     for rt in ["pack('float:32', v)", "pack('floatle:64', v)", "pack('float:16', v)", "pack('bfloat', v)", "pack('uint:8', v)", "pack('int:8', v)", "pack('bool', v)", "pack('e4m3mxfp', v)",
                "pack('p3binary', v)", "pack('ue', v)", "pack('uint:4, float:32', 3, v)", "pack('float:n', v, n=32)", "Bits(float=v, length=32)", "Bits(uint=v, length=8)", "Bits(bool=v)",
-               "Dtype('float32').build(v)", "Dtype('bfloat').build(v)", "Array('float32', [v])", "Array('float16', [v]).append", "BitArray.float = v", "Bits('float:32=' + str(v))", "Bits([v])"]:
+               "Dtype('float32').build(v)", "Dtype('bfloat').build(v)", "Array('float32', [v])", "Array('float16', [v]).append", "BitArray.float = v", "Bits('float:32=' + str(v))", "Bits([v])", "Dtype('uint8', scale=v).parse('0x03')", "Dtype('uint', 8, scale=v).parse('0x03')",
+               "Dtype('float16', scale=v).build(3.0)", "Array(Dtype('uint8', scale=v), [4]).tolist()", "Dtype('uint', v)", "Bits(uint=3, length=v)"]:
         add(f'C09.equal-keys[{rt}]', h_equal_keys(rt), f'{len(EQUAL_PAIRS)} ordered pairs of equal-comparing values (0.0/-0.0, 1/True/1.0, 0/False/-0.0, 2/2.0) x all option settings; warm vs cold', route=rt)
     triples = [("Bits('e4m3mxfp=1000')", "Bits('ue=3')", "Bits('0b0110')"), ("pack('uint:8, e4m3mxfp', 1, 1000.0)", "Dtype('uint8')", "Bits('uint:8=200')"),
-               ("Bits('0x5a, 0b1')", "BitArray('e4m3mxfp=1000')", "Bits('e5m2mxfp=100000')")]
+               ("Bits('0x5a, 0b1')", "BitArray('e4m3mxfp=1000')", "Bits('e5m2mxfp=100000')"), ("pack(['uint:8', 'hex:4'], 7, 'f')", "pack('uint:8', 7)", "Bits('uint:8=200')")]
     if not q:
         triples += [("Bits('se=-2')", "Bits('uie=5')", "Bits('p4binary=1000')"), ("Dtype('e4m3mxfp', scale=4)", "Dtype('float', 16)", "Array('>H', [1, 2])")]
     for i, tr in enumerate(triples):
@@ -256,7 +267,8 @@ def conditions(tier):
 def _ops_names():
     # names only (bitstring must not be imported at module import time in replay-less contexts)
     return [f'Bits({s!r})' for s in STRINGS] + ["BitArray('e4m3mxfp=1000')", "BitStream.fromstring('ue=3')", "Bits.fromstring('e5m2mxfp=1e9')", "pack('uint:8, e4m3mxfp', 1, 1000.0)",
-            "pack('uint:4, uint:4', 1, 2)", "pack('uint:n=v', n=8, v=3)", "pack('ue, se', 3, -1)", "pack('>HB', 1, 2)", "Bits('0xa5c3').unpack('uint:4, bits:4, hex')",
+            "pack('uint:4, uint:4', 1, 2)", "pack(['uint:8', 'hex:4'], 7, 'f')", "pack('uint:8', 7)", "pack(['uint:n', 'bool', 'int:4'], 7, True, -3, n=8)",
+            "Bits('0xa5c3').unpack(['uint:4', 'bits:4, hex'])", "BitStream('0xa5c3').readlist(['uint:4', 'hex:4'])", "pack('uint:n=v', n=8, v=3)", "pack('ue, se', 3, -1)", "pack('>HB', 1, 2)", "Bits('0xa5c3').unpack('uint:4, bits:4, hex')",
             "Bits('0b00100').unpack('ue')", "BitStream('0xa5c3').readlist('uint:a, bin:b', a=3, b=5)", "Bits('0xa5').find('0b101')", "Dtype('uint8')", "Dtype('e4m3mxfp', scale=4)",
             "Dtype('float', 16)", "Dtype('ue')", "Dtype(' int : 5 ')", "Dtype('e4m3mxfp').build(1000.0)", "Array('>H', [1, 2])", "Array(Dtype('e2m1mxfp', scale='auto'), [0.5, 40.0])",
             "Bits('0b1').pp-free str"]
